@@ -269,6 +269,7 @@ func accesses(body *ast.BlockStmt) []string {
 	var ops []string
 	other := func(s string) { ops = append(ops, fmt.Sprintf(".other %q", s)) }
 	writes := map[*ast.SelectorExpr]string{}
+	atomicArg := map[*ast.SelectorExpr]bool{} // &r.head / &r.tail / &holder.pos handed to sync/atomic
 	ast.Inspect(body, func(n ast.Node) bool {
 		switch x := n.(type) {
 		case *ast.AssignStmt:
@@ -293,6 +294,13 @@ func accesses(body *ast.BlockStmt) []string {
 			fld := "?"
 			if len(x.Args) > 0 {
 				fld = addrField(x.Args[0])
+			}
+			if len(x.Args) > 0 {
+				if u, ok := x.Args[0].(*ast.UnaryExpr); ok && u.Op == token.AND {
+					if se, ok := u.X.(*ast.SelectorExpr); ok {
+						atomicArg[se] = true
+					}
+				}
 			}
 			key := sel.Sel.Name + " " + fld
 			switch key {
@@ -330,6 +338,17 @@ func accesses(body *ast.BlockStmt) []string {
 				other(key)
 			}
 		case *ast.SelectorExpr:
+			if (x.Sel.Name == "head" || x.Sel.Name == "tail" || x.Sel.Name == "pos") && !atomicArg[x] {
+				// a counter / sequence number touched without sync/atomic
+				switch x.Sel.Name {
+				case "head":
+					ops = append(ops, ".plainHead")
+				case "tail":
+					ops = append(ops, ".plainTail")
+				default:
+					other("plain access to holder.pos")
+				}
+			}
 			if x.Sel.Name == "value" {
 				if rhs, isW := writes[x]; isW {
 					if rhs == "zero" {
